@@ -237,6 +237,23 @@ def evaluate(case):
                 raise Violation("same-element", op, f"ndarray-backed operands ({dt_a.__name__}64/{dt_b.__name__}64, keys {ka2}" + (f" x {kb2}" if kb is not None else "")
                                 + f") vs list-backed base ({desc}): {why}", base=kd.show(r1[1]), other=kd.show(r4[1]))
         counters["checked:ndarray-backed"] = 1
+        if op in ("add", "sub") and len(ka) >= 3:
+            # both operands hold the SAME blade set, the second one in a cyclically shifted key order (and ndarray-backed)
+            sh = ka[1:] + ka[:1]
+            m = dict(zip(ka, va))
+            w = {k: m[k] * 2 + 1 for k in ka}
+            xl, yl = kd.mk(alg, ka, [m[k] for k in ka]), kd.mk(alg, sh, [w[k] for k in sh])
+            base_ = _observe(op, xl, yl, n)
+            xn = kd.mk_raw(alg, ka, np.array([float(m[k]) for k in ka]))
+            yn = kd.mk_raw(alg, sh, np.array([float(w[k]) for k in sh]))
+            nd_ = _observe(op, xn, yn, n)
+            if base_[0] == "ok":
+                if nd_[0] != "ok":
+                    raise Violation("same-element", op, f"ndarray-backed {op} of keys {ka} and {sh} raised {nd_[1]}", exc="raise-mismatch")
+                ok, why = kd.elem_equal({k: float(v) for k, v in nd_[1].items()}, base_[1], 1e-9)
+                if not ok:
+                    raise Violation("same-element", op, f"{op} of two ndarray-backed operands with the same blades in key orders {ka} / {sh} "
+                                    f"vs the list-backed ones: {why}", base=kd.show(base_[1]), other=kd.show(nd_[1]))
     # anchor exact operators to the reference as well (excludes a common-mode error of all three calls)
     if r1[0] == "ok" and (op in EXACT_BIN or op in EXACT_UN):
         Rr = R(d, ref.T)
@@ -247,6 +264,32 @@ def evaluate(case):
                 raise Violation("value", op, f"{desc}: {why}", observed=kd.show(r1[1]), expected=kd.show(exp))
         except RefUndefined:
             pass
+    if r1[0] == "ok" and op in ("gp", "op", "ip", "sub", "add", "cp") and d <= 3 and ka and kb and len(ka) <= 4 and len(kb) <= 4 and not floaty \
+            and not cfg.get("basis"):
+        # symbolic coefficients in a GRADED algebra: operands padded with explicit zeros to complete grades must give the element
+        # the sparse symbolic operands give in the default mode
+        import sympy
+        galg = kd.build_algebra(cfg, graded=True)
+
+        def symmv(a_, keys, prefix):
+            grades = sorted({pc(k) for k in keys})
+            full = list(ref.keys_of_grades(grades))
+            sy = {k: sympy.Symbol(f"{prefix}{k}") for k in keys}
+            return a_.multivector(keys=tuple(full), values=[sy.get(k, 0) for k in full]), sy
+        gx, sa = symmv(galg, ka, "p")
+        gy, sb = symmv(galg, kb, "q")
+        sx = alg.multivector(keys=tuple(ka), values=[sa[k] for k in ka])
+        sy_ = alg.multivector(keys=tuple(kb), values=[sb[k] for k in kb])
+        g1 = _observe(op, gx, gy, n)
+        s1 = _observe(op, sx, sy_, n)
+        if s1[0] == "ok":
+            if g1[0] != "ok":
+                raise Violation("same-element", op, f"graded algebra, symbolic zero-padded operands raised {g1[1]} ({desc})", exc="raise-mismatch")
+            for k in set(g1[1]) | set(s1[1]):
+                if sympy.expand(sympy.sympify(g1[1].get(k, 0)) - sympy.sympify(s1[1].get(k, 0))) != 0:
+                    raise Violation("same-element", op, f"symbolic operands zero-padded to complete grades in a graded algebra vs sparse ones in the "
+                                    f"default algebra ({desc}): blade {k}: {g1[1].get(k, 0)} vs {s1[1].get(k, 0)}")
+            counters["checked:graded-symbolic"] = 1
     differs = (list(ka2) != list(ka)) or (kb is not None and list(kb2) != list(kb))
     vk = {case["va"]["kind"]} | ({case["vb"]["kind"]} if "vb" in case else set())
     labels = [f"op:{op}", f"d:{d}", "result:" + r1[0]] + (["opt:wrapper"] if case.get("wrapper") else [])
